@@ -145,8 +145,9 @@ class History:
         self.viol: dict[str, list[str]] = {}
         self.flags: set[str] = set()
 
-    def v(self, pid: str, msg: str):
-        self.viol.setdefault(pid, []).append(msg)
+    def v(self, pid: str, msg: str, tag: str | None = None):
+        # tag = predicate name of a known finding (known_findings.json): the check prints KNOWN-FINDING for it
+        self.viol.setdefault(pid, []).append(msg + (f" [kf:{tag}]" if tag else ""))
 
     def run(self):
         steps = self.steps
@@ -174,9 +175,13 @@ class History:
         self._start_errors = {}
         self._user_wrapped = set()
         self._failed_group_scopes = set()
+        self._f23_reported = set()
         self._dirty_finish = set()
         self._late_started = set()
         self._native_in_gexit = set()
+        self._native_events = []          # (step, task): native Task.cancel() requests
+        self._native_raised = []          # (step, task): a native CancelledError surfaced in the task
+        self._prog_uncancel = []          # (step, task): the program called uncancel()
         self._routed_exact = {}
         self._own_cancel_finish = set()
         self._group_scope = group_scope
@@ -209,6 +214,7 @@ class History:
                     shield_events.append(i)
                 elif c == S.UNCANCEL:
                     ext_events.append((i, t))
+                    self._prog_uncancel.append((i, t))
                     # a program that calls uncancel() itself may consume requests AnyIO made (and will compensate
                     # later): the lower bound on cancelling() is only meaningful for programs that never do that
                     uncancelled_by_program.add(t)
@@ -264,6 +270,7 @@ class History:
                     completions.append((t, op, res, prev, hb))
             elif c == S.NATIVECANCEL:
                 ext_events.append((i, a))
+                self._native_events.append((i, a))
                 if a in pending and pending[a][0][0] == S.GEXIT and prev["tasks"][a]["state"] == 2 \
                         and (2000 + a) not in prev["ready"] and not prev["tasks"][a]["must"]:
                     self._native_in_gexit.add(a)      # interrupts the host inside __aexit__ (join or checkpoint)
@@ -283,6 +290,8 @@ class History:
                 if was_idle:
                     if res[0] == "exc":
                         held[t] = (res[1], list(res[2]))
+                        if 1000 in res[2]:
+                            self._native_raised.append((i, t))
                         self.check_containment(t, origins, prev, i, shield_events)
                 elif prev["tasks"][t]["state"] == 2 and t in pending:
                     op0, i0, snap0, hb0 = pending[t]
@@ -344,6 +353,8 @@ class History:
                     self.v("C03", f"step {i}: task {t} slept through a whole sleep({b0}) although its scope {snap0['tasks'][t]['cur']} was effectively cancelled before the sleep began")
                 if r[0] == "exc":
                     held[t] = (r[1], list(r[2]))
+                    if 1000 in r[2]:
+                        self._native_raised.append((i, t))
                 if c0 in (S.EXIT, S.GEXIT) and r[0] == "ret" and r[1] == 1:
                     held[t] = None
                 if c0 == S.GNEW and r[0] == "ret":
@@ -395,6 +406,11 @@ class History:
                     vis_acc[tt] = vis
                 else:
                     vis_acc.setdefault(tt, set()).update(vis)
+            for gs in self._failed_group_scopes:
+                scg = snap["scopes"].get(gs)
+                if scg and scg["active"] and not ref_eff_cancelled(snap, gs) and gs not in self._f23_reported:
+                    self._f23_reported.add(gs)
+                    self.v("C02", f"step {i}: a child of the group with scope {gs} has failed, but the scope is no longer effectively cancelled (cancelled={scg['cancelled']}, shield={scg['shield']}): the remaining tasks and the body are not being cancelled")
             if self.real:
                 self.check_not_stuck(prev, snap, op, i)
             else:
@@ -427,6 +443,10 @@ class History:
                 self.v("C01", f"step {i}: group {g} block left while child task {m} has not terminated (state {tk['state']})")
             elif never_ran:
                 self.flags.add("child_cancelled_before_first_step")
+                if tk["hstatus"] in (1, 2):
+                    self.v("C01", f"step {i}: group {g} block left while the handle of child {m} is still not final (status "
+                                  f"{tk['hstatus']}): the child was natively cancelled before its first step, so TaskHandle._run_coro "
+                                  f"never ran and nobody will ever set the handle's finished event", tag="never_ran_handle_pending")
             elif tk["hstatus"] in (1, 2):
                 self.v("C01", f"step {i}: group {g} block left while the handle of child {m} is not final (status {tk['hstatus']})")
             elif m in finished_with:
@@ -510,12 +530,20 @@ class History:
             visible |= set(ref_visible_cancelled_set(self._cur_snap, cur))
             visible |= set(ref_visible_cancelled_set(self._cur_snap, self._cur_snap["tasks"][t]["cur"]))
         visible = sorted(visible)
+        now_visible = set(ref_visible_cancelled_set(prev, cur))
         for o in origins:
             if o <= 0 or o not in prev["scopes"]:
                 continue
             self.flags.add("cancel_delivered")
             if o not in visible:
                 self.v("C04", f"step {i}: task {t} (current scope {cur}) received a cancellation of scope {o}; the cancelled scopes visible from its current scope are {visible}")
+            elif not self.real and o not in now_visible:
+                # the request was placed while the origin was visible, then a shield went up before the task ran:
+                # asyncio cannot retract a Task.cancel(), the task is interrupted inside the now shielded scope
+                self.flags.add("shield_raised_after_request")
+                self.v("C04", f"step {i}: task {t} (current scope {cur}) received the cancellation of scope {o} although {o} is "
+                              f"no longer visible from its scope (visible now: {sorted(now_visible)}): a shield was raised after "
+                              f"the request had been placed and before the task ran", tag="shield_raised_after_request")
 
     # ---------- C04 / C05 / C06 at scope exit ----------
     def on_scope_exit(self, c, t, failat, res, snap, before, i, enter_info, ext_events, shield_events, hb, failat_scopes):
@@ -552,6 +580,19 @@ class History:
                 self.v("C04", f"step {i}: exception {hb} did not pass through scope {c} unchanged: {res}")
             if hb is not None and res[0] == "ret" and res[1] != 0:
                 self.v("C04", f"step {i}: exception {hb} did not pass through scope {c}")
+        ent0 = enter_info.get(c)
+        if swallowed and ent0 and ent0[0] == t and not snap["tasks"][t]["must"] \
+                and snap["tasks"][t]["ncancel"] > ent0[1]:
+            lost = [j for (j, tt) in self._native_events if tt == t and ent0[2] < j < i
+                    and not any(tt2 == t and j < k <= i for (k, tt2) in self._native_raised)
+                    and not any(tt2 == t and j < k <= i for (k, tt2) in self._prog_uncancel)]
+            if lost:
+                self.flags.add("native_request_absorbed")
+                self.v("C05", f"step {i}: a native Task.cancel() reached task {t} at step {lost[0]} inside scope {c}, "
+                              f"but the only CancelledError that surfaced was the scope's own and scope {c} absorbed it: "
+                              f"cancelling() is {snap['tasks'][t]['ncancel']} (was {ent0[1]} on entry), no cancellation is "
+                              f"pending any more and the task runs on - an asyncio.timeout()/Task.cancel() around the "
+                              f"scope is silently lost", tag="native_request_absorbed")
         if failat and c in failat_scopes:
             self.flags.add("failat_exit")
             due = sc_b["deadline"] >= 0 and before["now"] >= sc_b["deadline"]
@@ -603,7 +644,13 @@ class History:
                 continue
             if op[1] == t:
                 continue
-            if ref_eff_cancelled(snap, tk["cur"]) and ref_eff_cancelled(prev, pk["cur"]):
+            c1, c0 = ref_eff_cancelled(snap, tk["cur"]), ref_eff_cancelled(prev, pk["cur"])
+            if c1 and c0 and not (snap["scopes"][c1]["host"] and prev["scopes"][c0]["host"]):
+                # the cancelled scope was left (CancelScope.__exit__ called on it, e.g. on a group's scope while
+                # children remain): API misuse, nothing is promised (same exemption as check_delivery_alive)
+                self.flags.add("blocked_under_exited_scope")
+                continue
+            if c1 and c0:
                 self.flags.add("blocked_in_cancelled_scope_seen")
                 self.v("C03", f"step {i}: task {t} stayed blocked in scope {tk['cur']}, which is effectively cancelled, for more than 8 event-loop cycles")
 
@@ -712,6 +759,26 @@ def shrink(pid: str, ops: list[int], budget: int = 80):
     return best
 
 
+_KNOWN_CACHE = {}
+
+
+def known_tag(pid: str, msg: str):
+    """If the monitor message carries the predicate tag of a finding listed (status known) for this property in
+    known_findings.json, return the text to print after KNOWN-FINDING; the file is only ever read."""
+    import re
+    m = re.search(r"\[kf:(\w+)\]", msg)
+    if not m:
+        return None
+    if pid not in _KNOWN_CACHE:
+        data = json.loads((core.VERIF / "known_findings.json").read_text())
+        _KNOWN_CACHE[pid] = {f["match"]["predicate"]: f for f in data.get("findings", [])
+                             if f.get("property") == pid and f.get("status") == "known" and f.get("match", {}).get("predicate")}
+    f = _KNOWN_CACHE[pid].get(m.group(1))
+    if not f:
+        return None
+    return f"{f['what']} [{f['id']}, predicate {m.group(1)}]"
+
+
 def scheck(pid: str, tier: str, extra_assumptions=None, known=None) -> int:
     import os
     rep = core.Report(pid, tier)
@@ -728,6 +795,8 @@ def scheck(pid: str, tier: str, extra_assumptions=None, known=None) -> int:
     n_corpus = 0
     corpus_incomplete = []
     for f in sorted(corpus_dir.glob("*.json")) if corpus_dir.exists() else []:
+        if json.loads(f.read_text()).get("real_only"):
+            continue                      # a history recorded on a real loop: replayed in the real-loop part only
         w = sgen.replay(json.loads(f.read_text())["ops"], tolerant=True)
         runs.append(w)
         n_corpus += 1
@@ -756,6 +825,7 @@ def scheck(pid: str, tier: str, extra_assumptions=None, known=None) -> int:
             disagreements.append({"ops": w.ops[:(si + 1) * 4], "step": si, "impl": a[:80], "model": b[:80]})
     rejected = 0
     hits = []
+    known_seen = {}
     flags = {}
     nontrivial = set()
     steps_total = 0
@@ -771,6 +841,11 @@ def scheck(pid: str, tier: str, extra_assumptions=None, known=None) -> int:
         if any(f in h.flags for f in INTERESTING[pid]):
             nontrivial.add(tuple(w.ops))
         for msg in h.viol.get(pid, []):
+            kf = known_tag(pid, msg)
+            if kf:
+                rep.known_finding(kf)
+                known_seen[kf] = known_seen.get(kf, 0) + 1
+                continue
             hits.append((w, msg))
             break
     # ---- the same kinds of programs on REAL loops (stock asyncio, eager task factory, uvloop) ----
@@ -790,6 +865,11 @@ def scheck(pid: str, tier: str, extra_assumptions=None, known=None) -> int:
                 real_cfg_runs[cfg] += 1
                 hr = analyse(rw.ops, rw.outs, real=True)
                 for msg in hr.viol.get(pid, []):
+                    kf = known_tag(pid, msg)
+                    if kf:
+                        rep.known_finding(kf)
+                        known_seen[kf] = known_seen.get(kf, 0) + 1
+                        continue
                     real_hits.append((cfg, rw, msg))
                     break
             for _ in range(n_real):
@@ -803,8 +883,22 @@ def scheck(pid: str, tier: str, extra_assumptions=None, known=None) -> int:
                 if rw.info.get("timeout"):
                     real_hits.append((cfg, rw, "program did not finish on the real loop within the time limit (possible deadlock)"))
                 for msg in hr.viol.get(pid, []):
+                    kf = known_tag(pid, msg)
+                    if kf:
+                        rep.known_finding(kf)
+                        known_seen[kf] = known_seen.get(kf, 0) + 1
+                        continue
                     real_hits.append((cfg, rw, msg))
                     break
+
+    # nested eager execution (outside the model, see eager_directed.py): judged by the property text directly
+    eager_hits = []
+    if pid in ("C04", "C05"):
+        import eager_directed
+        for name, msg in eager_directed.run_all():
+            if pid == "C04" or "host_leaves" in name or "cancelling()" in msg:
+                eager_hits.append((name, msg))
+        real_flags["eager_directed_scenarios"] = len(eager_directed.SCENARIOS)
 
     # kernel-checked sample (short cases keep vm_compute fast)
     idx = sorted(range(len(cases)), key=lambda i: len(cases[i]))[: (25 if tier == "quick" else 120)]
@@ -827,6 +921,9 @@ def scheck(pid: str, tier: str, extra_assumptions=None, known=None) -> int:
     for cfg, rw, msg in real_hits[:2]:
         rep.violation(f"[{cfg} loop] " + msg, {"kind": "monitor-real-loop", "config": cfg, "ops": rw.ops,
                                                "ops_readable": sgen.readable(rw.ops)[:200]})
+    for name, msg in eager_hits[:2]:
+        rep.violation(f"[eager task factory, scenario {name}] {msg}", {"kind": "directed-eager", "scenario": name,
+                                                                        "replay": "harness/eager_directed.py runs the scenario"})
     tie = []
     if not proofs_ok:
         tie.append("proof obligation: " + str(rep.coverage.get("proof_failure", {}).get("where")))
@@ -836,7 +933,7 @@ def scheck(pid: str, tier: str, extra_assumptions=None, known=None) -> int:
         tie.append("vm_compute sample disagrees with the extracted model")
     if corpus_incomplete:
         tie.append("stored corpus history can no longer be executed on the implementation: " + corpus_incomplete[0]["file"])
-    if tie and not hits and not real_hits:
+    if tie and not hits and not real_hits and not eager_hits:
         d = min(disagreements, key=lambda x: len(x["ops"])) if disagreements else None
         if d:
             d = dict(d)
@@ -861,7 +958,8 @@ def scheck(pid: str, tier: str, extra_assumptions=None, known=None) -> int:
         "op_distribution": opcount,
         "vm_compute_sample": len(idx),
         "vm_compute_ok": vm_ok,
-        "monitor_hits": len(hits) + len(real_hits),
+        "monitor_hits": len(hits) + len(real_hits) + len(eager_hits),
+        "known_finding_hits": known_seen,
         "real_loop_runs": real_cfg_runs,
         "real_loop_reached": real_flags,
         "samples": [sgen.readable(cases[i])[:40] for i in idx[-2:]],
@@ -875,6 +973,20 @@ def scheck(pid: str, tier: str, extra_assumptions=None, known=None) -> int:
 def sreplay(pid: str, path: str) -> int:
     """Re-executes a stored case: implementation trace, monitors, and comparison with the model."""
     data = json.loads(open(path).read())
+    if data.get("kind") == "directed-eager":
+        import eager_directed
+        r = [(n, m) for n, m in eager_directed.run_all() if n == data.get("scenario")]
+        for n, m in r:
+            print(f"MONITOR {pid}: [{n}] {m}")
+        return 1 if r else 0
+    if data.get("kind") == "monitor-real-loop":
+        import sreal
+        rw = sreal.real_run(data["ops"], data.get("config", "asyncio"))
+        hr = analyse(rw.ops, rw.outs, real=True) if rw is not None else None
+        for p_, ms in (hr.viol.items() if hr else []):
+            for m in ms[:3]:
+                print(f"MONITOR {p_}: {m}")
+        return 1 if (hr and [m for m in hr.viol.get(pid, []) if not known_tag(pid, m)]) else 0
     ops = data.get("ops") or (data.get("case") or {}).get("ops")
     if not ops:
         print("no op list in", path)
